@@ -26,7 +26,7 @@ SHARDS = 16
 GRACE, SHUT = 0.4, 0.4
 HORIZON = 5.0
 
-KINDS = ["idle_keepalive", "partial_head", "inflight_short", "inflight_long", "stuck_forever", "unread_response", "h2_open_stream",
+KINDS = ["idle_keepalive", "partial_head", "inflight_short", "pipelined_behind_inflight", "inflight_long", "stuck_forever", "unread_response", "h2_open_stream",
          "h2_idle", "websocket_open"]
 
 
@@ -56,7 +56,7 @@ def run_one(case, tally):
                      ["send_stream", ("c15", 1), big, 65536, True]],
         },
     }
-    cfg = {"graceful_timeout": GRACE if kind != "inflight_short" else 3.0, "shutdown_timeout": SHUT, "keep_alive_timeout": 30.0}
+    cfg = {"graceful_timeout": GRACE if kind not in ("inflight_short", "pipelined_behind_inflight") else 3.0, "shutdown_timeout": SHUT, "keep_alive_timeout": 30.0}
     if case["trigger"] == "max_requests":
         cfg["max_requests"] = 2
     h = ServeHarness(be, cfg, apps)
@@ -79,6 +79,8 @@ def run_one(case, tally):
                 s.sendall(b"GET /partial HTTP/1.1\r\nHos")
             elif kind == "inflight_short":
                 s.sendall(b"GET /short HTTP/1.1\r\nHost: h\r\n\r\n")
+            elif kind == "pipelined_behind_inflight":
+                s.sendall(b"GET /short HTTP/1.1\r\nHost: h\r\n\r\nGET /after-trigger HTTP/1.1\r\nHost: h\r\n\r\n")
             elif kind == "inflight_long":
                 s.sendall(b"GET /long HTTP/1.1\r\nHost: h\r\n\r\n")
             elif kind == "stuck_forever":
@@ -98,7 +100,7 @@ def run_one(case, tally):
                 s.sendall(ws.handshake(path=b"/ws%d" % i))
                 recv_until(s, b"\r\n\r\n", timeout=1.0)
         # let the server get every request going
-        want_apps = {"inflight_short": "/short", "inflight_long": "/long", "stuck_forever": "/stuck", "unread_response": "/big", "h2_open_stream": "/stuck"}.get(kind)
+        want_apps = {"inflight_short": "/short", "pipelined_behind_inflight": "/short", "inflight_long": "/long", "stuck_forever": "/stuck", "unread_response": "/big", "h2_open_stream": "/stuck"}.get(kind)
         if want_apps:
             end = time.monotonic() + 2.0
             while time.monotonic() < end and sum(1 for e in tr.events if e[2] == "app" and e[3] == "start" and e[4]["scope"].get("path") == want_apps) < len(socks):
@@ -126,15 +128,21 @@ def run_one(case, tally):
         else:
             h.trigger_shutdown()
         t_trig = time.monotonic()
-        if kind == "inflight_short":
+        if kind in ("inflight_short", "pipelined_behind_inflight"):
             time.sleep(0.2)
             h.apps.trigger("finish")
             for s in socks:
                 data, eof = recv_all(s, timeout=2.0)
                 seen.setdefault("short", []).append(data.endswith(b"short"))
-        time.sleep(0.15)
         # ---- no new work after the trigger ---------------------------------------------------
-        s3 = h.connect(timeout=0.5)
+        # causal, not chronometric: wait until the server has seen the trigger and has closed its listener
+        fired = h.wait_event(lambda e: e[2] == "srv" and e[3] == "trigger-fired", 4.0) if case["trigger"] == "callable" else True
+        lsock = h.sockets.insecure_sockets[0]
+        end = time.monotonic() + 3.0
+        while time.monotonic() < end and lsock.fileno() != -1:
+            time.sleep(0.01)
+        seen["listener_closed"] = lsock.fileno() == -1
+        s3 = h.connect(timeout=0.5) if fired and seen["listener_closed"] else None
         new_served = None
         if s3 is not None:
             try:
@@ -203,6 +211,8 @@ def run_one(case, tally):
     if isinstance(h.result, tuple) and kind not in ("stuck_forever",):
         tally.notes["serve-raised:%s" % h.result[1].strip().splitlines()[-1][:60]] += 1
     tally.clause("no-new-work")
+    if not seen.get("listener_closed"):
+        tally.inconclusive["listener-not-observed-closed"] += 1
     if seen.get("new_conn_served"):
         findings.append({"clause": "no-new-work", "sig": "C15.new-connection-served-after-trigger/%s" % be, "backend": be,
                          "detail": "a connection opened after the shutdown trigger was accepted and served"})
@@ -215,7 +225,7 @@ def run_one(case, tally):
         if not all(seen.get("idle_closed", [False])):
             findings.append({"clause": "idle-closed", "sig": "C15.idle-connection-kept-open/%s" % be, "backend": be,
                              "detail": "idle keep-alive connections after the trigger: closed=%r" % seen.get("idle_closed")})
-    if kind == "inflight_short":
+    if kind in ("inflight_short", "pipelined_behind_inflight"):
         tally.clause("inflight-delivered")
         if not all(seen.get("short", [False])):
             findings.append({"clause": "inflight-delivered", "sig": "C15.inflight-truncated/%s" % be, "backend": be,
